@@ -91,3 +91,26 @@ Proof.
   rewrite X. cbn [andb r_linecount r_src r_filo List.length cpp_loop].
   destruct P as [R _]. rewrite R, NB. cbn [app]. destruct (strip l); [contradiction|]. reflexivity.
 Qed.
+
+(* ---- at next(): a directive item is handed out WHOLE -- next() cuts statement lines at ';', never a directive
+        (a ';' in a macro body is text) *)
+Theorem cpp_next_whole s t a b s' :
+  r_fifo s = [] -> get_source_item s = (Some (RCpp t a b), s') -> next_item s = (Some (RCpp t a b), s').
+Proof.
+  intros F G. unfold next_item.
+  set (fuel := S (S (S (List.length (r_src s) + List.length (r_filo s) + List.length (r_fifo s))))).
+  assert (NR : next_raw fuel s = (Some (RCpp t a b), s')).
+  { unfold fuel. cbn [next_raw]. rewrite F, G. reflexivity. }
+  rewrite NR. reflexivity.
+Qed.
+
+Corollary cpp_directive_is_one_item_at_next free omp ign er p0 ps lastl src lc :
+  plain_pull free omp ign (p0 ++ [bsl]) -> starts_with ["#"%char] (lstrip (p0 ++ [bsl])) = true ->
+  Forall (fun p => plain_pull free omp ign (p ++ [bsl])) ps -> plain_pull free omp ign lastl ->
+  ends_with_char bsl lastl = false -> strip (p0 ++ List.concat ps ++ lastl) <> [] ->
+  next_item (mkRst ((p0 ++ [bsl]) :: cont_lines ps ++ lastl :: src) [] lc [] free omp ign er)
+  = (Some (RCpp (strip (p0 ++ List.concat ps ++ lastl)) (S lc) (S (S lc) + List.length ps)),
+     mkRst src [] (S (S lc) + List.length ps) [] free omp ign er).
+Proof.
+  intros P0 H PS PL NB NE. apply cpp_next_whole; [reflexivity|]. apply cpp_item; assumption.
+Qed.
